@@ -3,11 +3,14 @@ package protoc
 import (
 	"bytes"
 	"fmt"
-	"math/rand"
+	"net"
 	"reflect"
+	"strings"
+	"time"
 
 	"google.golang.org/protobuf/proto"
 	"perun.network/go-perun/wire"
+	wirenet "perun.network/go-perun/wire/net"
 	pb "perun.network/go-perun/wire/protobuf"
 	"verif/harness/internal/cv"
 	"verif/harness/internal/hx"
@@ -399,6 +402,31 @@ func RunC13(seed int64, tier, out string, start int, res *hx.Result) int {
 	return r.w.next()
 }
 
+// pipeRecv sends the chunks through a net.Pipe (one Write per chunk) and receives `count` envelopes with
+// wire/net.NewIoConn over the protobuf serializer.
+func pipeRecv(chunks [][]byte, count int) (got []string, ok bool) {
+	a, b := net.Pipe()
+	defer a.Close()
+	defer b.Close()
+	_ = b.SetReadDeadline(time.Now().Add(20 * time.Second))
+	go func() {
+		for _, c := range chunks {
+			if _, err := a.Write(c); err != nil {
+				return
+			}
+		}
+	}()
+	conn := wirenet.NewIoConn(b, ser)
+	for i := 0; i < count; i++ {
+		e, err := conn.Recv()
+		if err != nil {
+			return got, false
+		}
+		got = append(got, cv.Envelope(e))
+	}
+	return got, true
+}
+
 // RunC16 appends the protobuf cases of C16 (frames over chunking readers). See RunC14 for the parameters.
 func RunC16(seed int64, tier, out string, start int, res *hx.Result) int {
 	r := newRun("C16", tier, out, start, res, 4)
@@ -469,14 +497,19 @@ func RunC16(seed int64, tier, out string, start int, res *hx.Result) int {
 		}
 		chunks := split(stream, cuts)
 		got, _, fin, perr := decodeAll(chunks)
-		idx := r.addCase(streamCase(stream, chunks, got, fin), "proto/"+class)
-		res.Count("proto/"+class, fmt.Sprintf("decoded=%d/%d", len(got), len(want)), fmt.Sprintf("p/%s/%d/%d/%d", class, len(want), len(got), len(chunks)/8), false)
+		idx := r.addCase(streamCase(stream, chunks, got, fin), "pframe/"+class)
+		res.Count("pframe/"+class, fmt.Sprintf("decoded=%d/%d", len(got), len(want)), fmt.Sprintf("p/%s/%d/%d/%d", class, len(want), len(got), len(chunks)/8), false)
 		res.Sample(map[string]interface{}{"serializer": "protobuf", "class": class, "envelopes": len(want), "stream_bytes": len(stream), "chunks": len(chunks)})
 		// oracle: the envelopes of the unchunked decode, in order, and nothing else
 		whole, _, wfin, _ := decodeAll([][]byte{stream})
 		same := fin == "ok" && wfin == "ok" && len(got) == len(want) && len(whole) == len(want)
 		for i := 0; same && i < len(want); i++ {
 			same = got[i] == want[i] && whole[i] == want[i]
+		}
+		// the same chunks through wire/net.ioConn over a net.Pipe (oracle only: same model)
+		if pg, pok := pipeRecv(chunks, len(want)); !pok || strings.Join(pg, ";") != strings.Join(want, ";") {
+			r.fail("wire/net.ioConn.Recv(protobuf)", class, fmt.Sprintf("pipe delivery decoded %d of %d protobuf frames", len(pg), len(want)), idx,
+				map[string]interface{}{"stream": fmt.Sprintf("%x", stream), "cuts": cuts})
 		}
 		if !same {
 			r.fail("protobuf.Serializer.Decode", class, fmt.Sprintf("chunked delivery decoded %d of %d envelopes (end: %s %v; unchunked: %d, %s)", len(got), len(want), fin, perr, len(whole), wfin), idx,
@@ -487,5 +520,3 @@ func RunC16(seed int64, tier, out string, start int, res *hx.Result) int {
 	res.Rule += " || protobuf: streams of 1-3 framed envelopes through a chunking io.Reader (whole, single bytes, 1460-byte segments, a frame split in two, 1-40 byte chunks, cuts inside and around every length prefix, random chunks); decoded envelopes and the end of the stream compared with run_chunked of the model frame decoder (payload -> tree table from the real proto.Unmarshal); oracle: the envelopes that were sent, in order, as in the unchunked decode"
 	return r.w.next()
 }
-
-var _ = rand.Int
